@@ -173,6 +173,7 @@ func runTest(cfg *config.Config, pkgpath, runPattern string, appArgs ...string) 
 				}
 			}
 
+			fmt.Printf("FAIL %s %v\n", prog.Manifest.MainPkg, time.Since(startTime).Round(time.Millisecond))
 			os.Exit(1)
 		}
 
@@ -275,6 +276,7 @@ func runTest(cfg *config.Config, pkgpath, runPattern string, appArgs ...string) 
 				}
 			}
 
+			fmt.Printf("FAIL %s %v\n", prog.Manifest.MainPkg, time.Since(startTime).Round(time.Millisecond))
 			os.Exit(1)
 		}
 
